@@ -549,55 +549,69 @@ fn scale_values() -> Vec<(String, Val)> {
         }
         out.push((format!("{} sets", n), Val { meta: Some(long.clone()), clip: (0..257).map(|i| if i % 2 == 0 { Some(format!("{}{}", long, i)) } else { None }).collect(), sets }));
     }
-    out.extend(dense_values(false));
     out
 }
 
 /// DENSE sweeps (every value from 0, so that every residue of the data size modulo a page is
 /// hit): the number of sets with 1-word and 3-word sets, the length of every kind of name; and
-/// the shared tricky-string catalogue as meta / clip name / label / slot name.
-fn dense_values(thorough: bool) -> Vec<(String, Val)> {
-    let mut out = Vec::new();
-    let none_clip: Vec<Option<String>> = vec![None; 257];
-    let (n1, n3, nl) = if thorough { (4200usize, 1500usize, 1200usize) } else { (1100, 400, 300) };
-    for n in 0..=n1 {
-        out.push((format!("dense: {} empty sets", n), Val { meta: None, clip: none_clip.clone(), sets: vec![vec![None; 257]; n] }));
+/// the shared tricky-string catalogue as meta / clip name / label / slot name. Values are
+/// generated one at a time from their index (the whole family held in memory would need GBs).
+fn dense_bounds(thorough: bool) -> (usize, usize, usize) {
+    if thorough {
+        (4200, 1500, 1200)
+    } else {
+        (1100, 400, 300)
     }
-    for n in 0..=n3 {
-        let sets = (0..n)
-            .map(|i| {
+}
+
+fn dense_count(thorough: bool) -> usize {
+    let (n1, n3, nl) = dense_bounds(thorough);
+    (n1 + 1) + (n3 + 1) + (nl + 1) + vcore::sjis::tricky_strings().len()
+}
+
+fn dense_value(thorough: bool, mut i: usize) -> (String, Val) {
+    let (n1, n3, nl) = dense_bounds(thorough);
+    let none_clip: Vec<Option<String>> = vec![None; 257];
+    if i <= n1 {
+        return (format!("dense: {} empty sets", i), Val { meta: None, clip: none_clip, sets: vec![vec![None; 257]; i] });
+    }
+    i -= n1 + 1;
+    if i <= n3 {
+        let sets = (0..i)
+            .map(|k| {
                 let mut set: Vec<Option<String>> = vec![None; 257];
-                set[1 + (i * 37) % 256] = Some(format!("a{}", i % 5));
+                set[1 + (k * 37) % 256] = Some(format!("a{}", k % 5));
                 set
             })
             .collect();
-        out.push((format!("dense: {} one-slot sets", n), Val { meta: Some("m".into()), clip: none_clip.clone(), sets }));
+        return (format!("dense: {} one-slot sets", i), Val { meta: Some("m".into()), clip: none_clip, sets });
     }
-    for l in 0..=nl {
+    i -= n3 + 1;
+    if i <= nl {
+        let l = i;
         let a: String = "abcdefghijklmnopqrstuvwxyz".chars().cycle().take(l).collect();
         let b: String = "漢字".chars().cycle().take(l / 2).collect::<String>() + if l % 2 == 1 { "z" } else { "" };
-        let mut clip = none_clip.clone();
+        let mut clip = none_clip;
         clip[0] = Some(a.clone());
         clip[256] = Some(b.clone());
         let mut set: Vec<Option<String>> = vec![None; 257];
         set[0] = Some(b.clone());
         set[1] = Some(a.clone());
         set[256] = Some(b.clone());
-        out.push((format!("dense: names of {} bytes", l), Val { meta: Some(a), clip, sets: vec![set] }));
+        return (format!("dense: names of {} bytes", l), Val { meta: Some(a), clip, sets: vec![set] });
     }
+    i -= nl + 1;
     let tricky = vcore::sjis::tricky_strings();
-    for (i, s) in tricky.iter().enumerate() {
-        let other = &tricky[(i + 1) % tricky.len()];
-        let mut clip = none_clip.clone();
-        clip[i % 257] = Some(s.clone());
-        clip[(i + 100) % 257] = Some(other.clone());
-        let mut set: Vec<Option<String>> = vec![None; 257];
-        set[0] = Some(s.clone());
-        set[1 + i % 256] = Some(s.clone());
-        set[256] = Some(other.clone());
-        out.push((format!("tricky string #{}", i), Val { meta: Some(s.clone()), clip, sets: vec![set, vec![None; 257]] }));
-    }
-    out
+    let s = &tricky[i % tricky.len()];
+    let other = &tricky[(i + 1) % tricky.len()];
+    let mut clip = none_clip;
+    clip[i % 257] = Some(s.clone());
+    clip[(i + 100) % 257] = Some(other.clone());
+    let mut set: Vec<Option<String>> = vec![None; 257];
+    set[0] = Some(s.clone());
+    set[1 + i % 256] = Some(s.clone());
+    set[256] = Some(other.clone());
+    (format!("tricky string #{}", i), Val { meta: Some(s.clone()), clip, sets: vec![set, vec![None; 257]] })
 }
 
 fn explore(ctx: &Ctx) -> Outcome {
@@ -623,10 +637,7 @@ fn explore(ctx: &Ctx) -> Outcome {
             v.sig = format!("after-failed-calls:{}", v.sig);
         }
     }
-    let mut sv = scale_values();
-    if thorough {
-        sv.extend(dense_values(true));
-    }
+    let sv = scale_values();
     let scale_t = sv
         .par_iter()
         .fold(Tally::new, |mut t, (name, v)| {
@@ -639,6 +650,21 @@ fn explore(ctx: &Ctx) -> Outcome {
             t
         })
         .reduce(Tally::new, Tally::merge);
+    drop(sv);
+    let dense_t = (0..dense_count(thorough))
+        .into_par_iter()
+        .fold(Tally::new, |mut t, i| {
+            let (name, v) = dense_value(thorough, i);
+            t.cases += 1;
+            t.nontrivial += 1;
+            t.class("family:dense");
+            if let Some((sig, summary)) = judge(&v, &mut t) {
+                t.violate(format!("dense:{}", sig), format!("[{}] {}", name, summary.chars().take(400).collect::<String>()), json!({"dense": i, "thorough": thorough}));
+            }
+            t
+        })
+        .reduce(Tally::new, Tally::merge);
+    total.absorb(dense_t);
     total.absorb(scale_t);
     // samples: generator coordinates of three representative cases
     total.sample(serde_json::to_value(Case { fam: "lists".into(), meta: 3, clip: 2, sets: vec![shape(1), shape(4), shape(0)] }).unwrap());
@@ -681,9 +707,14 @@ fn explore(ctx: &Ctx) -> Outcome {
 }
 
 fn replay(_ctx: &Ctx, case: &Value) -> Vec<Violation> {
+    if let Some(i) = case["dense"].as_u64() {
+        let (_, v) = dense_value(case["thorough"].as_bool().unwrap_or(false), i as usize);
+        let mut t = Tally::new();
+        return judge(&v, &mut t).map(|(sig, summary)| vec![Violation { sig: format!("dense:{}", sig), summary: summary.chars().take(400).collect(), case: case.clone() }]).unwrap_or_default();
+    }
     if let Some(name) = case["scale"].as_str() {
         let mut out = Vec::new();
-        for (n, v) in scale_values().into_iter().chain(dense_values(true)) {
+        for (n, v) in scale_values().into_iter() {
             if n == name {
                 let mut t = Tally::new();
                 if let Some((sig, summary)) = judge(&v, &mut t) {
